@@ -696,7 +696,7 @@ fn gen_backpressure(rng: &mut Rng) -> String {
         ReqBody::None => "n".into(),
     };
     let hs = *rng.pick(&["q", "qd", "qdq", "pd", "qr", "qrd", "qrq", "qa", "dq", "qq", "qrrd", "pqd", "qm", "mq", "qmq", "a", "d", "-"]);
-    let cs = if hs.contains('m') { *rng.pick(&["d", "rd", "rrd", "r", ""]) } else { "" };
+    let cs = if hs.contains('m') { *rng.pick(&["d", "rd", "rrd", "r", "", "rrrrd", "rrrrrrrr", "rrrrrrrrrrrrrrrrd"]) } else { "" };
     let resp = match rng.below(5) {
         0 => "Z".to_owned(),
         1 => "N".to_owned(),
@@ -752,7 +752,7 @@ fn gen_backpressure(rng: &mut Rng) -> String {
     }
     let n = rng.below(8);
     if n > 0 {
-        let letters = if hs.contains('m') { "rrhhcccb" } else { "rrrhhhbw" };
+        let letters = if hs.contains('m') { "rrhccccccb" } else { "rrrhhhbw" };
         let e: String = (0..n).map(|_| letters.as_bytes()[rng.below(letters.len())] as char).collect();
         t.push(format!("E:{}", e));
     }
